@@ -77,6 +77,8 @@ type SpecFunc struct {
 	RawDef  string // optional raw SMT definition body with param names
 	PkgPath string
 	Rec     bool
+	// Transparent: always revealed
+	Transparent bool
 }
 
 type Axiom struct {
@@ -232,12 +234,19 @@ func (c *Contracts) ParseText(path string, text string, pkgPath string) error {
 				rec = true
 				rest = strings.TrimSpace(strings.TrimPrefix(rest, "spec"))
 			}
+			transparent := false
+			if strings.HasPrefix(rest, "transparent ") {
+				// spec transparent func: the definition is visible everywhere (no reveal needed)
+				transparent = true
+				rest = strings.TrimSpace(rest[len("transparent "):])
+			}
 			sf, err := parseSpecFunc(rest)
 			if err != nil {
 				return fail(l, "%v", err)
 			}
 			sf.PkgPath = curPkg
 			sf.Rec = rec
+			sf.Transparent = transparent
 			if _, dup := c.SpecFuncs[sf.Name]; dup {
 				return fail(l, "duplicate spec func %s", sf.Name)
 			}
